@@ -36,14 +36,49 @@ package chain
 //@ func (*Transaction).Units
 //@   trusted
 //@   noframe
+//@ func (*Transaction).GetID
+//@   pure
+//@ func CreateActionID
+//@   pure
+//@ func Auth.Actor
+//@   pure
 
-//@ func (*Transaction).PreExecute props C10
-//@   requires Rules.GetValidityWindow(r) >= 0 && timestamp + Rules.GetValidityWindow(r) <= MaxInt64
-//@   requires internalfees.wellFormed(feeManager)
-//@   loop 1 invariant 0 <= idx1 && idx1 <= len(t.Actions)
-//@   loop 1 invariant forall j int :: 0 <= j && j < idx1 ==> active(fst(Action.ValidRange(t.Actions[j], r)), snd(Action.ValidRange(t.Actions[j], r)), timestamp)
-//@   ensures err == nil ==> t.Base.ChainID == Rules.GetChainID(r)
-//@   ensures err == nil ==> t.Base.Timestamp % 1000 == 0 && t.Base.Timestamp >= timestamp && t.Base.Timestamp <= timestamp + Rules.GetValidityWindow(r)
-//@   ensures err == nil ==> len(t.Actions) <= Rules.GetMaxActionsPerTx(r)
-//@   ensures err == nil ==> forall j int :: 0 <= j && j < len(t.Actions) ==> active(fst(Action.ValidRange(t.Actions[j], r)), snd(Action.ValidRange(t.Actions[j], r)), timestamp)
-//@   ensures err == nil ==> active(fst(Auth.ValidRange(t.Auth, r)), snd(Auth.ValidRange(t.Auth, r)), timestamp)
+// ---- what every action and every balance handler may do to the view it is handed (ASSUMED for
+// implementations; they reach the view only through Insert/Remove/GetValue, whose contracts
+// compose to exactly this): the log only grows, earlier records stay, the representation
+// invariant holds, and every key touched is recorded with its previous pending entry ----
+//@ func Action.Execute
+//@   noframe
+//@   requires tstate.wf(mu) && tstate.RI(mu)
+//@   modifies mu.pendingChangedKeys[], mu.writes[], mu.allocates[], mu.ops
+//@   ensures tstate.wf(mu) && tstate.RI(mu) && tstate.hist(mu, old(mu), old(len(mu.ops)))
+//@   ensures forall j int :: 0 <= j && j < old(len(mu.ops)) ==> mu.ops[j] == old(mu.ops[j])
+//@ func BalanceHandler.Deduct
+//@   noframe
+//@   requires tstate.wf(mu) && tstate.RI(mu)
+//@   modifies mu.pendingChangedKeys[], mu.writes[], mu.allocates[], mu.ops
+//@   ensures tstate.wf(mu) && tstate.RI(mu)
+
+// Transactions are atomic and always pay their fee (C03)
+//@ func (*Transaction).Execute props C03
+//@   noframe
+//@   requires tstate.wf(ts) && tstate.RI(ts) && internalfees.wellFormed(feeManager)
+//@   modifies ts.pendingChangedKeys[], ts.writes[], ts.allocates[], ts.ops
+//@   at call 3 assert err == nil ==> fee == internalfees.feeOf(feeManager.raw, units)
+//@   at call 5 snapshot charged
+//@   at call 8 assert actionStart == len(ts.ops) && actionStart == at(charged, len(ts.ops))
+//@   loop 1 invariant tstate.wf(ts) && tstate.RI(ts) && len(actionOutputs) == idx1 && 0 <= idx1 && idx1 <= len(t.Actions)
+//@   loop 1 invariant actionStart == at(charged, len(ts.ops)) && actionStart <= len(ts.ops)
+//@   loop 1 invariant forall j int :: 0 <= j && j < actionStart ==> ts.ops[j] == at(charged, ts.ops[j])
+// the fee recorded (and deducted, call 5 passes `fee`) is exactly prices x units
+//@   ensures err == nil ==> !isnil(result0) && result0.Fee == internalfees.feeOf(feeManager.raw, result0.Units)
+// success: every action ran and produced an output
+//@   ensures err == nil && result0.Success ==> len(result0.Outputs) == len(t.Actions)
+// failure: the outputs of the actions that ran before the failing one are kept, and the view is rolled
+// back to the checkpoint taken right after the fee deduction: the log is cut back to that length, its
+// records are the ones of that moment, and (Rollback's contract) every key touched since gets the
+// pending entry its earliest record since the checkpoint describes, every other key is left alone
+//@   ensures err == nil && !result0.Success ==> len(result0.Outputs) < len(t.Actions)
+//@   ensures err == nil && !result0.Success ==> len(ts.ops) == at(charged, len(ts.ops)) && tstate.RI(ts) && (forall j int :: 0 <= j && j < len(ts.ops) ==> ts.ops[j] == at(charged, ts.ops[j]))
+// an error is returned only before any action ran (units/fee computation or the deduction failed)
+//@   ensures err != nil ==> isnil(result0)
